@@ -266,9 +266,12 @@ def ecase_l(c, r):
     s, f = r['summary'], r['filter_summary']
     fb = '[' + ';'.join(f'({t}%nat,{table_l(tb)})' for t, tb in r['filter_blocks']) + ']'
     i2i = '[' + ';'.join(f'({i},{k}%nat)' for i, k in s['id2index']) + ']'
+    gtab = table_l([(i, [i % 100003 * 3 + 1]) for i in c['g']])
+    gen = '[' + ';'.join(f'({t}%nat,{table_l(tb)})' for t, tb in r.get('generated', [])) + ']'
     ob = ('{|e_ids:=%s;e_types:=%s;e_data:=%s;e_id2index:=%s;e_q:=%s;e_filter:=%s;e_fids:=%s;'
-          'e_ftypes:=%s;e_fdata:=%s|}') % (zl(s['ids']), nl(s['types']), rows_l(s['data']), i2i,
-                                          zl(c['q']), fb, zl(f['ids']), nl(f['types']), rows_l(f['data']))
+          'e_ftypes:=%s;e_fdata:=%s;e_g:=%s;e_gen:=%s|}') % (
+        zl(s['ids']), nl(s['types']), rows_l(s['data']), i2i, zl(c['q']), fb, zl(f['ids']),
+        nl(f['types']), rows_l(f['data']), gtab, gen)
     return f'({c["id"]}%nat, check_summary {bs} {ob})'
 
 
